@@ -123,6 +123,12 @@ class Ref:
         return Fr(frac) * self.lat.cell[ax] >= 100 * (self.tol * (self.minedge + far) + C_ULP * self.ulp)
 
 
+def _coord_class(ref):
+    """input class for refusals of valid inputs: are the coordinates so large that one ulp is no longer small
+    against 1e-12 (the fixed absolute tolerance of Mesh.is_aligned)?"""
+    return "large-coordinates" if ref.M >= 500.0 else "other"
+
+
 def _mhist(mesh, prev=0.0):
     return max(prev, float(np.max(np.abs(mesh.region.pmin))), float(np.max(np.abs(mesh.region.pmax))))
 
@@ -439,7 +445,7 @@ def _check_range_sel(ctx, mesh, boxes, ax, a, b, form, inst, mhist=0.0):
         touching = any(bx[ax][1] in (a, a - 1) or bx[ax][0] in (b + 1, b + 2) for bx in boxes.values()) \
             if form == "faces" else any(bx[ax][1] == a or bx[ax][0] == b + 1 for bx in boxes.values())
         ctx.note("sel-range-raised")
-        ctx.fail("Mesh.sel-range/raises/" + ("selection-face-on-subregion-face" if touching else "other"),
+        ctx.fail("Mesh.sel-range/raises/" + ("selection-face-on-subregion-face" if touching else _coord_class(ref)),
                  f"sel({dim}=({lo_v!r}, {hi_v!r})) [cells {a}..{b}, bounds at {form}] with subregions {boxes} on "
                  f"pmin={float(ref.lat.pmin[ax])!r} cell={float(ref.lat.cell[ax])!r} n={n[ax]}: {type(res).__name__}: "
                  f"{str(res)[:120]}", instance=inst)
@@ -727,7 +733,7 @@ def _transition(ctx, st, ev, tmp, inst):
     ctx.check()
     if raised:
         ctx.note("transition-raised:" + kind)
-        ctx.fail(site + "/raises-on-valid-mesh", f"{ev} on pmin={np.asarray(mesh.region.pmin).tolist()} "
+        ctx.fail(site + "/raises-on-valid-mesh/" + _coord_class(Ref(mesh, st.mhist)), f"{ev} on pmin={np.asarray(mesh.region.pmin).tolist()} "
                  f"pmax={np.asarray(mesh.region.pmax).tolist()} n={n} subregions {st.boxes}: {type(res).__name__}: "
                  f"{str(res)[:140]}", instance=inst)
         return None
